@@ -186,6 +186,12 @@ func VerifH10bSnippetUse() {
 	for _, t := range toks[:len(toks)-5] {
 		hasImport = hasImport || t.Text == "import"
 	}
+	for i, t := range toks[:len(toks)-5] {
+		if t.Text == "import" && (toks[i+1].Text == "s" || toks[i+1].Text == "t") {
+			// a snippet body imports a snippet: the input class of the recorded known finding (cycles)
+			verifrt.Tag("snippet-imports-snippet")
+		}
+	}
 	p := parser{Dispenser: NewDispenserTokens("Casketfile", toks)}
 	blocks, err := p.parseAll()
 	if !hasImport && useIdx < nsnip {
